@@ -288,34 +288,33 @@ def r5(repo, res):
                          f"original: {k1} {None if a1 is None else dict(cn=a1['do_copy_number'], **{x: a1['profile'].get(x) for x in keys})}; "
                          f"replay: {k2} {None if a2 is None else dict(cn=a2['do_copy_number'], **{x: a2['profile'].get(x) for x in keys})}",
                    clause="as genotyping the original alignment file with the same parameters", key=f"alias-on-replay:{prof}{'|cn' if user_cn else ''}")
-    # neutral-depth table: writer -> reader -> consumer
+    # neutral-depth table: writer -> pickle -> consumer (the normalisation routine folded whole on the restored table)
+    import checks.c07 as c07
+
     wf, wc, w = writer_tuple(repo)
-    rf, rn, r = reader_tuple(repo)
     nf = repo.func("coverage::Coverage._normalize_coverage")
     idx = [i for i, e in enumerate(w) if root(e) == "_dump_cn"]
-    cons = [n for n in walk_local(nf) if isinstance(n, ast.Assign) and "_cnv_coverage" in ast.unparse(n.value)
-            and isinstance(n.value, ast.Call) and call_name(n.value) == "sum"]
-    if not idx or not cons:
-        res.err("C17.R5", "neutral-depth component or its consumer not found")
+    if not idx:
+        res.err("C17.R5", "neutral-depth component not found in the dump tuple")
         return
     try:
-        table = collections.defaultdict(int, {100: 4, 101: 5, 103: 2})  # position 102 has no read
+        table = collections.defaultdict(int, {100: 4, 101: 5, 103: 2, 105: 3})  # position 102 and 104 have no read
         stored = Evaluator({"self._dump_cn": table, "self": Obj(_dump_cn=table)}, funcs={"Counter": collections.Counter}).ev(w[idx[0]])
         import pickle
 
         restored = pickle.loads(pickle.dumps(stored))
-        me = Obj(_cnv_coverage=restored, profile=Obj(cn_region=Obj(start=100, end=105)))
-        from sa.fold import single_defs
-
-        v = Evaluator({"self": me}, defs=single_defs(nf)).ev(cons[0].value)
-        ok, found = (v == 11), f"neutral depth over a region with an uncovered position: {v}"
+        depth, _ = c07.depth_table()
+        data = {"G": {"e1": [40.0, 30.0], "i1": [0, 0], "e2": [55.0, 70.0]}}
+        k0, v0, o0 = c07.fold_normalize(repo, depth, table, data, 30.0)
+        k1, v1, o1 = c07.fold_normalize(repo, depth, restored, data, 30.0)
+        ok, found = (k0 == k1 and k1 != "raise" and o0 == o1 and len(o1) == 6), f"original: {k0}, {len(o0)} cells; from the restored table: {k1} {v1 if k1 == 'raise' else ''}, equal: {o0 == o1}"
     except Raised as e:
         ok, found = False, f"consumer raises {e.kind} on a restored table with an uncovered position"
     except Unfoldable as e:
         res.err("C17.R5", f"neutral table round trip outside folding language: {e}")
         return
     res.ob("C17.R5", wf, w[idx[0]], ok,
-           expected="the restored neutral-depth table answers every position of the neutral region (uncovered positions read as 0)",
+           expected="normalising against the restored neutral-depth table gives the same depths as against the original one (uncovered positions read as 0)",
            found=found, clause="the same ... gene structures ... as genotyping the original alignment file", key="neutral-table-roundtrip")
 
 
